@@ -887,3 +887,62 @@ U_D2O_SLDS = [Unit("_D2O_slds[%s]" % ("table=T" if t else "default table"), NSF 
                    contracts={NSF + ".neutron_sld": c_neutron_sld_rec, FORMULAS + ".formula": c_formula_rec,
                               "Mol.replace": c_mol_replace, "HEl.__getitem__": c_h_getitem},
                    inline={"periodictable.core.default_table"}, replay={"module": "c16", "task": "replay"}) for t in (False, True)]
+
+
+# ------------------------------------------------------------------------------ neutron_composite_sld (outer function: builds what _compute closes over)
+
+def c_sum_piece_rec(interp, st, args, kw):
+    """_sum_piece(wavelength, material) -> (num_atoms, molar_mass, b_c, sigma_s) of that material (unit _sum_piece)"""
+    calls = st.ghost.setdefault("sum_piece_calls", [])
+    j = len(calls)
+    calls.append(list(args))
+    return VTuple([VObj("Piece", {"of": j, "field": f}) for f in ("num_atoms", "molar_mass", "b_c", "sigma_s")])
+
+
+def _outer_inputs(k, vector):
+    def mk(st, interp):
+        use_state(st)
+        st.ghost["is_vector"] = z3.BoolVal(vector)
+        mats = [VObj("Material", {"j": j}) for j in range(k)]
+        lam = st.fresh("wavelength", z3.RealSort())
+        st.assume(lam > 0)
+        return [VList(list(mats))], {"wavelength": lam}, {"mats": mats, "lam": lam, "vector": vector, "k": k}
+    return mk
+
+
+def _outer_post(st, interp, C, res):
+    if res.outcome == "raise":
+        st.oblige("never-raises", False, kind="raises", info={"exc": res.exc})
+        return
+    f = res.value
+    ok = isinstance(f, VFunc) and f.ext.name == "_compute"
+    st.oblige("post.returns the calculator closure _compute", z3.BoolVal(ok))
+    if not ok:
+        return
+    calls = st.ghost.get("sum_piece_calls", [])
+    st.oblige("post._sum_piece is evaluated once per material, in order, at the caller's wavelength",
+              z3.BoolVal(len(calls) == C["k"] and all(len(c) == 2 and c[1] is C["mats"][j] for j, c in enumerate(calls)))
+              if not (len(calls) == C["k"] and all(len(c) == 2 for c in calls))
+              else z3.And([z3.BoolVal(c[1] is C["mats"][j]) for j, c in enumerate(calls)]
+                          + [spec.eq_goal(interp, st, c[0], C["lam"]) for c in calls]))
+    env = {}
+    for d in reversed(f.closure):
+        env.update(d)
+    want = {"num_atoms_parts": "num_atoms", "molar_mass_parts": "molar_mass", "bc_parts": "b_c", "sigma_parts": "sigma_s"}
+    for var, field in want.items():
+        v = interp.resolve(st, env.get(var))
+        items = list(v.items) if isinstance(v, (VTuple, VList)) else None
+        good = items is not None and len(items) == C["k"] and all(isinstance(x, VObj) and x.cls == "Piece" and x.attrs["of"] == j
+                                                                     and x.attrs["field"] == field for j, x in enumerate(items))
+        st.oblige("post.%s holds the %s of material j at position j" % (var, field), z3.BoolVal(bool(good)))
+    im = env.get("is_multi")
+    st.oblige("post.is_multi is true exactly for a non-scalar wavelength argument", spec.eq_goal(interp, st, im, z3.BoolVal(C["vector"])))
+
+
+def _outer_unit(k, vector):
+    return Unit("neutron_composite_sld[%d materials, %s wavelength]" % (k, "vector" if vector else "scalar"), NSF + ".neutron_composite_sld",
+                _outer_inputs(k, vector), _outer_post, contracts={NSF + "._sum_piece": c_sum_piece_rec},
+                replay={"module": "c17", "task": "replay"})
+
+
+U_COMPOSITE_OUTER = [_outer_unit(k, v) for k in (1, 3) for v in (False, True)]
